@@ -1,0 +1,8 @@
+//go:build !verif
+
+// Package verifhook holds the observation points of the verification
+// harness. Without the build tag "verif" they are empty.
+package verifhook
+
+// Lin reports a linearization point (no-op in this build).
+func Lin(_, _ string) {}
